@@ -247,7 +247,9 @@ HARNESSES = [
             cases=[{'files': 2, 'cells': 2, 'genes': 1, 'clusters': 2,
                     'max_proc': 2},
                    {'files': 3, 'cells': 1, 'genes': 1, 'clusters': 2,
-                    'max_proc': 1, 'via_tree': True}],
+                    'max_proc': 1, 'via_tree': True},
+                   {'files': 2, 'cells': 1, 'genes': 1, 'clusters': 2,
+                    'max_proc': 1, 'same_basename': True}],
             funcs=['precompute_from_anndata (see C09 statistics_stage)'],
             stubs=['see C09'],
             bounds='2-3 reference files with their own cell-name tables; a '
